@@ -59,7 +59,11 @@
 (* "sub/../b.h"; through -I given as a plain directory, as a symbolic link *)
 (* to it, or as a relative name with ".."), the order of A and B on the    *)
 (* command line, whether the working directory is the headers' directory,  *)
-(* and B's protection (#pragma once / include guard / none).               *)
+(* and B's protection (#pragma once / include guard / none).  B may also   *)
+(* live in a -S directory and be reached by "b.h" through -S or by <b.h>:  *)
+(* being named on the command line makes it the user's own all the same    *)
+(* (the statement's "never when found through -S" speaks of files that are *)
+(* NOT named on the command line).                                         *)
 (* REFERENCE: a file named on the command line - under any spelling that   *)
 (* denotes it - is the user's own however it is first reached; its         *)
 (* published declarations are exported exactly once (an unprotected file   *)
@@ -96,7 +100,7 @@
 (***************************************************************************)
 EXTENDS Naturals, Sequences, FiniteSets, TLC
 
-CONSTANTS EmptyAnglePathIsCwd, ExplicitByCanonical, KeyByCanonical, LookupCanonical,
+CONSTANTS EmptyAnglePathIsCwd, ExplicitByCanonical, KeyByCanonical, LookupCanonical, PromoteSystemHits,
           IncluderDirResolved, OptDirsPhysical,
           MaxIncludes      \* bound of part 2
 
@@ -111,7 +115,8 @@ Spellings == {"plain", "dot", "dotdot", "symlink", "abs", "viaI", "cmdline"}
 Guards == {"pragma", "guard", "none"}
 \* part 3
 CmdSpells == {"plain", "symlink", "dots"}
-Reaches == {"incPlain", "incDot", "incDotDot", "Iplain", "Isymlink", "Idotdot"}
+Reaches == {"incPlain", "incDot", "incDotDot", "Iplain", "Isymlink", "Idotdot",
+            "Splain", "Sangle"}     \* B lives in a -S directory: reached by "b.h" resolved through -S / by <b.h>
 Orders == {"AB", "BA"}
 NoOwn == [cmdSpell |-> "none", reach |-> "none", order |-> "none", cwdHas |-> FALSE]
 \* part 4
@@ -269,18 +274,24 @@ InitOwn ==
   /\ chain = NoChain
 
 \* is the name find_include hands back for B (before make_canonical) already B's canonical name?
+\* probe 1 (the working directory) finds B: quoted includes only, and only when cwd is B's directory
+FoundInCwd == own.cwdHas /\ own.reach # "Sangle"
 FoundIsCanonical ==
-  CASE own.cwdHas -> FALSE                                \* probe 1: the name as written, relative; S_local already
+  CASE FoundInCwd -> FALSE                                \* the name as written, relative; S_local already
     [] own.reach = "incPlain" -> TRUE                     \* dirname(canonical includer) + "/b.h"
     [] own.reach \in {"incDot", "incDotDot"} -> FALSE     \* ... + "/./b.h", ... + "/sub/../b.h"
-    [] own.reach = "Iplain" -> TRUE                       \* make_absolute(-I directory) + "/b.h"
-    [] own.reach = "Idotdot" -> TRUE                      \* make_absolute collapsed the ".." (no symbolic link crossed)
+    [] own.reach \in {"Iplain", "Splain", "Sangle"} -> TRUE   \* <canonical -I/-S directory> + "/b.h"
+    [] own.reach = "Idotdot" -> TRUE                      \* the ".." of the option is resolved (no symbolic link crossed)
     [] own.reach = "Isymlink" -> OptDirsPhysical          \* make_canonical (c17-fix-4) resolves the link, make_absolute did not
 \* is the name kept in _explicit_files B's canonical name?  ("dots" is collapsed lexically by make_absolute too)
 StoredIsCanonical == ExplicitByCanonical \/ own.cmdSpell # "symlink"
 \* handle_include_directive: _explicit_files.count(<canonical name | name as found>)
 OwnInExplicit == StoredIsCanonical /\ (LookupCanonical \/ FoundIsCanonical)
-IncludeSrc == IF own.cwdHas \/ OwnInExplicit THEN "local" ELSE "alternate"
+\* the class find_include hands back
+FoundSrc == IF FoundInCwd THEN "local" ELSE IF own.reach \in {"Splain", "Sangle"} THEN "system" ELSE "alternate"
+\* ... and after the command-line promotion, which applies to EVERY class (PromoteSystemHits = FALSE documents the
+\* deviation "a file from a system directory never is [the user's own]")
+IncludeSrc == IF FoundSrc # "local" /\ OwnInExplicit /\ (FoundSrc # "system" \/ PromoteSystemHits) THEN "local" ELSE FoundSrc
 
 \* the source classes with which B's declarations enter the parse, in order
 Contrib(incSrc) ==
